@@ -119,6 +119,16 @@ func (m *c11Mon) onRequest(p *Play, e *h.Ev, kind string, asked []string) []stri
 		}
 		return true
 	}
+	timeoutHere := m.timeout && !m.usedTO && (kind == "blinds" && len(gs.Players) >= 3 || m.requests >= 4)
+	if timeoutHere && kind == "blinds" {
+		// withhold the big blind's answer (the asked players are then not entries 0..n-1)
+		for i, id := range order {
+			if gp := t.FindGamePlayerIdx(id); gp >= 0 && gs.HasPosition(gp, "bb") {
+				order[i], order[len(order)-1] = order[len(order)-1], order[i]
+				c.Feature("timeout:big-blind-withheld")
+			}
+		}
+	}
 	for i, id := range order[:len(order)-1] {
 		if !send(id) {
 			return []string{}
@@ -133,7 +143,7 @@ func (m *c11Mon) onRequest(p *Play, e *h.Ev, kind string, asked []string) []stri
 	}
 	last := order[len(order)-1]
 	start := time.Now()
-	if m.timeout && !m.usedTO && m.requests >= 2 {
+	if timeoutHere {
 		// never answer: after the response timeout (17 s) the hand must move on by itself, not earlier
 		m.usedTO = true
 		moved := false
@@ -168,7 +178,7 @@ func (m *c11Mon) onRequest(p *Play, e *h.Ev, kind string, asked []string) []stri
 }
 
 func c11Run(c *h.Ctx) {
-	m := &c11Mon{c: c, withhold: c.Case%3 == 0, timeout: c.Thorough() && c.Case%40 == 7}
+	m := &c11Mon{c: c, withhold: c.Case%3 == 0, timeout: c.Case%40 == 7}
 	r := c.R
 	po := PlayOpts{
 		Hands:    2 + r.Intn(3),
@@ -265,11 +275,11 @@ func init() {
 		ID:        "C11",
 		Level:     "exploration",
 		Technique: "runtime monitoring: at every readiness / ante / blind request of generated hands the driver compares who is asked with who must be asked, answers in a PRNG-chosen order and checks after each answer but the last (and after a grace period with one answer withheld) that no new hand state was published; settlement, result entries and a step bound are checked per hand",
-		Rule: "case = one generated table (2..10 participants, ante on/off, SB/BB, dealer-blind and no-SB structures, short and deep stacks, all-in and fold-out lines) playing 2..4 hands; every third case withholds the last answer of each request for 20..140 ms; thorough adds cases in which one answer is never sent and the 17 s fallback is awaited; " +
+		Rule: "case = one generated table (2..10 participants, ante on/off, SB/BB, dealer-blind and no-SB structures, short and deep stacks, all-in and fold-out lines) playing 2..4 hands; every third case withholds the last answer of each request for 20..140 ms; one case in forty never sends one answer (the big blind's at a blinds request with three or more players when possible) and awaits the 17 s fallback; " +
 			"non-trivial = at least one hand settled with all requests judged; distinct = fingerprint of config + answer orders",
 		Assumptions: []string{
 			"'does not advance early' is observed as: no new hand state published after a short grace period following each answer but the last (a longer wait could only reveal more)",
-			"'moves on by itself after the timeout' is only exercised in thorough runs (17 s each); bounds there are 16.5 s .. 24 s",
+			"'moves on by itself after the timeout' is exercised in one case in forty (17 s each, run in parallel); bounds 16.5 s .. 24 s",
 			"liveness: a hand with every request answered and every turn played that shows no new state for 14 s is reported as not finishing (the engine's own fallback timers are 17 s, so they cannot rescue it silently)",
 		},
 		Cases:       func(tier string) int { return map[string]int{"quick": 480, "thorough": 8000}[tier] },
@@ -278,9 +288,7 @@ func init() {
 		},
 		RequiredFeatures: func(tier string) []string {
 			f := []string{"all-answered:ready", "all-answered:ante", "all-answered:blinds", "withheld-response:ready", "withheld-response:blinds", "blinds:heads-up", "blinds:dealer-blind", "blinds:no-sb", "rounds-seen=4", "rounds-seen=1", "participants=2", "participants=6"}
-			if tier == "thorough" {
-				f = append(f, "moved-on-after-17s-timeout")
-			}
+			f = append(f, "moved-on-after-17s-timeout", "timeout:big-blind-withheld")
 			return f
 		},
 		CaseTimeout: 240e9,
